@@ -108,7 +108,7 @@ def getXSTypeLabelFromNumber(xsTypeNumber: int) -> str:
             # two characters. Upper case letters have 2-digit codes (65-90), lower case
             # letters have 3-digit codes (97-122, the only ones starting with a 1).
             digits = str(xsTypeNumber)
-            split = 3 if digits[0] == "1" else 2
+            split = 3 if digits[0] == "1" and len(digits) >= 5 else 2
             return chr(int(digits[:split])) + chr(int(digits[split:]))
         elif xsTypeNumber < ord("A"):
             raise ValueError(
